@@ -156,7 +156,8 @@ class Scope:
     a private helper (or inlining one) does not change the verdict.
     """
 
-    def __init__(self, ctx, fn: FuncInfo, depth: int = 3) -> None:
+    def __init__(self, ctx, fn: FuncInfo, depth: int = 3, wide: bool = False) -> None:
+        """`wide`: also follow public functions of the same module and other methods of the same class."""
         self.ctx = ctx
         self.root = fn
         self.funcs: list[FuncInfo] = [fn]
@@ -170,7 +171,8 @@ class Scope:
                             continue
                         private = c.name.startswith("_") and not c.name.startswith("__")
                         nested = c.parent is not None
-                        if private or nested:
+                        same_class = c.cls is not None and f.cls is not None and c.cls is f.cls and wide
+                        if private or nested or same_class or (wide and c.cls is None):
                             self.funcs.append(c)
                             nxt.append(c)
                 for sub in f.nested.values():
@@ -207,6 +209,46 @@ class Scope:
 
     def raises(self) -> list[tuple[FuncInfo, ast.Raise]]:
         return [(f, n) for f, n in self.walk() if isinstance(n, ast.Raise)]
+
+    def const_nodes(self) -> list[ast.AST]:
+        """Values of the module-level (and class-level) constants that the scope names."""
+        out: list[ast.AST] = []
+        seen: set[str] = set()
+        for f, n in self.walk():
+            name = n.id if isinstance(n, ast.Name) else (n.attr if isinstance(n, ast.Attribute) and isinstance(n.value, ast.Name) and n.value.id in ("self", "cls") else None)
+            if name is None or name in seen:
+                continue
+            seen.add(name)
+            v = f.module.assigns.get(name)
+            if v is None and f.cls is not None:
+                v = f.cls.class_assigns.get(name)
+            if v is not None:
+                out.append(v)
+        return out
+
+    def mentions(self, name: str) -> bool:
+        """`name` occurs in the scope as an attribute, a keyword, a subscript key or a string constant (also inside the
+        module-level tables the scope uses)."""
+        for n in [n for _f, n in self.walk()] + [x for c in self.const_nodes() for x in ast.walk(c)]:
+            if isinstance(n, ast.Attribute) and n.attr == name:
+                return True
+            if isinstance(n, ast.Constant) and n.value == name:
+                return True
+            if isinstance(n, ast.keyword) and n.arg == name:
+                return True
+        return False
+
+    def dynamic(self) -> bool:
+        """The scope reads attributes by computed name (getattr / vars / __dict__ / asdict / fields): claims that something
+        is *never* read cannot be made from the text."""
+        from .loader import dotted
+
+        for _f, n in self.walk():
+            if isinstance(n, ast.Call) and dotted(n.func) in ("getattr", "vars", "asdict", "dataclasses.asdict", "fields", "dataclasses.fields", "operator.attrgetter", "attrgetter"):
+                return True
+            if isinstance(n, ast.Attribute) and n.attr == "__dict__":
+                return True
+        return False
 
 
 def iterations(node: ast.AST) -> list[dict]:
@@ -654,3 +696,106 @@ def all_merges(fn_node: ast.AST) -> list[tuple[ast.AST, list[ast.AST]]]:
             if base is not None:
                 out.append((n, [base, d.resolve(n.args[0])]))
     return out
+
+
+def reach_rejections(ctx, fn: FuncInfo, depth: int = 3) -> list[dict]:
+    """Rejections (live raises with their conditions) of `fn` and of the same-module functions it calls."""
+    out = []
+    for f in Scope(ctx, fn, depth=depth, wide=True).funcs:
+        out += [dict(r, fn=f) for r in rejections(ctx.cfg(f), f.node, Defs(f)) if not r["dead"]]
+    return out
+
+
+def may_raise(ctx, fn: FuncInfo, depth: int = 4) -> bool:
+    """`fn` or something it calls inside the package contains an explicit, live `raise`."""
+    seen = set()
+    frontier = [fn]
+    for _ in range(depth):
+        nxt = []
+        for f in frontier:
+            if f.qualname in seen:
+                continue
+            seen.add(f.qualname)
+            if any(not r["dead"] for r in rejections(ctx.cfg(f), f.node)):
+                return True
+            for s in ctx.cg.sites.get(f.qualname, []):
+                nxt += [c for c in s.callees if c.qualname not in seen]
+        frontier = nxt
+    return False
+
+
+def bind_args(call: ast.Call, callee: FuncInfo) -> dict[str, ast.AST]:
+    """Parameter name -> argument expression of `call` (positional and keyword; `self` skipped for bound methods)."""
+    ps = callee.param_names()
+    if ps and ps[0] in ("self", "cls") and isinstance(call.func, ast.Attribute):
+        ps = ps[1:]
+    out: dict[str, ast.AST] = {}
+    for i, a in enumerate(call.args):
+        if isinstance(a, ast.Starred):
+            break
+        if i < len(ps):
+            out[ps[i]] = a
+    for k in call.keywords:
+        if k.arg is not None:
+            out[k.arg] = k.value
+    return out
+
+
+_STORE_METHODS = ("update", "setdefault", "__setitem__")
+
+
+def stores_into(ctx, fn: FuncInfo, name: str, depth: int = 2) -> list[tuple[ast.AST, list[FuncInfo]]]:
+    """Statements-level constructs of `fn` that put entries into the mapping named `name`: `name[...] = v`,
+    `name.update(...)`, or a call that hands `name` to a function which does so with the corresponding parameter.
+    Returned as (node, chain of (callee, parameter) followed)."""
+    out: list[tuple[ast.AST, list[FuncInfo]]] = []
+    for x in ast.walk(fn.node):
+        if isinstance(x, (ast.Assign, ast.AugAssign, ast.AnnAssign)):
+            targets = x.targets if isinstance(x, ast.Assign) else [x.target]
+            if any(isinstance(t, ast.Subscript) and isinstance(t.value, ast.Name) and t.value.id == name for t in targets):
+                out.append((x, []))
+        elif isinstance(x, ast.Call):
+            if isinstance(x.func, ast.Attribute) and x.func.attr in _STORE_METHODS and isinstance(x.func.value, ast.Name) and x.func.value.id == name:
+                out.append((x, []))
+    if depth > 0:
+        for s in ctx.cg.sites.get(fn.qualname, []):
+            for c in s.callees:
+                for p, a in bind_args(s.node, c).items():
+                    if isinstance(a, ast.Name) and a.id == name:
+                        inner = stores_into(ctx, c, p, depth - 1)
+                        if inner:
+                            out.append((s.node, [(c, p)] + inner[0][1]))
+    return out
+
+
+def reachable_under(cfg, defs: Defs, target: int, env: dict[str, bool], max_atoms: int = 8, start: int | None = None) -> bool | None:
+    """Is `target` reachable from `start` (default ENTRY) on a path whose `if` decisions are all consistent with one truth assignment of
+    the atoms that extends `env`?  True / False; None when there are too many atoms to enumerate.  Decisions whose test
+    cannot be evaluated under the assignment are taken both ways (over-approximation of reachability)."""
+    import itertools
+
+    from .cfg import ENTRY
+
+    ifs = {n: defs.resolve(cfg.stmt[n].test) for n in cfg.nodes(lambda s: isinstance(s, ast.If))}
+    atoms = sorted({a for t in ifs.values() for a in bool_atoms(t)} - set(env))
+    if len(atoms) > max_atoms:
+        return None
+    for vals in itertools.product((True, False), repeat=len(atoms)):
+        e = dict(zip(atoms, vals)) | env
+        s0 = ENTRY if start is None else start
+        seen, todo = {s0}, [s0]
+        while todo:
+            x = todo.pop()
+            if x == target:
+                return True
+            for y in cfg.g.successors(x):
+                if y in seen:
+                    continue
+                br = cfg.g.edges[x, y].get("branch")
+                if br is not None and x in ifs:
+                    v = bool_eval(ifs[x], e)
+                    if v is not None and v != br:
+                        continue
+                seen.add(y)
+                todo.append(y)
+    return False
